@@ -12,8 +12,8 @@ Core Lean only.  Support for `Properties/C01Faithful.lean`.
   the newline);
 * per `encChar` / `step` pair: `StepOk` (the step undoes the character encoder) and `NlOk`
   (LF and CR are not longer than any other encoded code point and are recognised by the last
-  bytes) for ascii, latin-1, utf-8, utf-16 (both byte orders); `noBom_*`: encoded data begins
-  with the table's byte-order mark only when the text begins with U+FEFF;
+  bytes) for ascii, latin-1, utf-8, utf-16 and utf-32 (both byte orders), cp1252; `noBom_*`:
+  encoded data begins with the table's byte-order mark only when the text begins with U+FEFF;
 * `Codecs.faithful`, `Codecs.newlines`: `CodecFaithful` / `CodecNewlines` for every codec of
   `Codecs.env`, under every spelling.
 -/
@@ -511,6 +511,158 @@ theorem noBom_utf16 (be : Bool) (c : Nat) (b r : Bytes) (h : utf16Char be c = so
     have := key _ _ (by omega) hp
     omega
 
+/-! ## utf-32 -/
+
+theorem unit32_length (be : Bool) (u : Nat) : (unit32 be u).length = 4 := by
+  cases be <;> rfl
+
+theorem utf32Char_cases (be : Bool) (c : Nat) (b : Bytes) (h : utf32Char be c = some b) :
+    c < 0x110000 ∧ ¬ (0xD800 ≤ c ∧ c < 0xE000) ∧ b = unit32 be c := by
+  unfold utf32Char at h
+  split at h
+  · split at h
+    · cases h
+    · exact ⟨by assumption, by assumption, (Option.some.inj h).symm⟩
+  · cases h
+
+/-- the four bytes of a unit give the unit back -/
+theorem val32_unit (be : Bool) (u : Nat) (hu : u < 4294967296) :
+    ∃ a b c d, unit32 be u = [a, b, c, d] ∧ val32 be a b c d = u := by
+  have e0 := byte_toNat (u % 256) (by omega)
+  have e1 := byte_toNat (u / 256 % 256) (by omega)
+  have e2 := byte_toNat (u / 65536 % 256) (by omega)
+  have e3 := byte_toNat (u / 16777216) (by omega)
+  cases be
+  · refine ⟨_, _, _, _, rfl, ?_⟩
+    simp only [val32, Bool.false_eq_true, if_false, e0, e1, e2, e3]
+    omega
+  · refine ⟨_, _, _, _, rfl, ?_⟩
+    simp only [val32, if_true, e0, e1, e2, e3]
+    omega
+
+theorem utf32Step_unit (be : Bool) (u : Nat) (r : Bytes) (h1 : u < 0x110000) (h2 : ¬ (0xD800 ≤ u ∧ u < 0xE000)) :
+    utf32Step be (unit32 be u ++ r) = some (u, r) := by
+  obtain ⟨a, b, c, d, hab, hv⟩ := val32_unit be u (by omega)
+  have hcond : (decide (u < 0xD800) || (decide (0xE000 ≤ u) && decide (u < 0x110000))) = true := by
+    simp only [Bool.or_eq_true, Bool.and_eq_true, decide_eq_true_eq]
+    omega
+  rw [hab]
+  simp only [List.cons_append, List.nil_append, utf32Step, hv, hcond, if_true]
+
+theorem stepOk_utf32 (be : Bool) : StepOk (utf32Char be) (utf32Step be) where
+  ne := by
+    intro c b h
+    obtain ⟨_, _, rfl⟩ := utf32Char_cases be c b h
+    intro hn
+    have := unit32_length be c
+    rw [hn] at this
+    cases this
+  step := by
+    intro c b r h
+    obtain ⟨h1, h2, rfl⟩ := utf32Char_cases be c b h
+    exact utf32Step_unit be c r h1 h2
+
+/-- four bytes determine the unit -/
+theorem unit32_inj (be : Bool) (u v : Nat) (hu : u < 4294967296) (hv : v < 4294967296)
+    (h : unit32 be u = unit32 be v) : u = v := by
+  obtain ⟨a, b, c, d, hab, hva⟩ := val32_unit be u hu
+  obtain ⟨a', b', c', d', hab', hva'⟩ := val32_unit be v hv
+  rw [hab, hab'] at h
+  injection h with h0 h
+  injection h with h1 h
+  injection h with h2 h
+  injection h with h3 h
+  subst h0 h1 h2 h3
+  exact hva.symm.trans hva'
+
+theorem utf32Char_nl (be : Bool) (k : Nat) (hk : k = 10 ∨ k = 13) (bk : Bytes) (h : utf32Char be k = some bk) :
+    bk = unit32 be k := by
+  rcases hk with rfl | rfl
+  · exact (Option.some.inj h).symm
+  · exact (Option.some.inj h).symm
+
+theorem nlOk_utf32 (be : Bool) : NlOk (utf32Char be) where
+  len := by
+    intro k hk c b bk hb hbk
+    obtain ⟨_, _, rfl⟩ := utf32Char_cases be c b hb
+    rw [utf32Char_nl be k hk bk hbk, unit32_length, unit32_length]
+    exact Nat.le_refl _
+  last := by
+    intro k hk c b bk hb hbk hs
+    rw [utf32Char_nl be k hk bk hbk] at hs
+    obtain ⟨h1, _, rfl⟩ := utf32Char_cases be c b hb
+    have := suffix_same_len (unit32 be k) [] (unit32 be c) hs (by rw [unit32_length, unit32_length])
+    exact (unit32_inj be k c (by omega) (by omega) this).symm
+
+theorem noBom_utf32 (be : Bool) (c : Nat) (b r : Bytes) (h : utf32Char be c = some b) (hc : c ≠ 0xFEFF) :
+    ¬ unit32 be 0xFEFF <+: b ++ r := by
+  intro hp
+  obtain ⟨h1, _, rfl⟩ := utf32Char_cases be c b h
+  obtain ⟨q, hq⟩ := hp
+  have := List.append_inj_left hq (by rw [unit32_length, unit32_length])
+  exact hc (unit32_inj be _ _ (by omega) (by omega) this).symm
+
+/-! ## cp1252 -/
+
+/-- every row of the table is found by its byte, which lies in `0x80–0x9F`; its code point is
+above Latin-1 -/
+theorem cp1252Table_rows : ∀ p ∈ cp1252Table,
+    cp1252Table.find? (fun q => q.2 == p.2) = some p ∧ 0x80 ≤ p.2.toNat ∧ p.2.toNat < 0xA0 ∧ 0x100 ≤ p.1 := by
+  decide
+
+theorem cp1252Char_cases (c : Nat) (b : Bytes) (h : cp1252Char c = some b) :
+    ((c < 0x80 ∨ (0xA0 ≤ c ∧ c < 0x100)) ∧ b = [c.toUInt8]) ∨ (∃ p ∈ cp1252Table, p.1 = c ∧ b = [p.2]) := by
+  unfold cp1252Char at h
+  split at h
+  · exact .inl ⟨by assumption, (Option.some.inj h).symm⟩
+  · cases hf : cp1252Table.find? (fun p => p.1 == c) with
+    | none =>
+      rw [hf] at h
+      cases h
+    | some p =>
+      rw [hf] at h
+      have hp : (p.1 == c) = true := List.find?_some (p := fun q : Nat × UInt8 => q.1 == c) hf
+      exact .inr ⟨p, List.mem_of_find?_eq_some hf, eq_of_beq hp, (Option.some.inj h).symm⟩
+
+theorem stepOk_cp1252 : StepOk cp1252Char cp1252Step where
+  ne := by
+    intro c b h
+    rcases cp1252Char_cases c b h with ⟨_, rfl⟩ | ⟨p, _, _, rfl⟩ <;> simp
+  step := by
+    intro c b r h
+    rcases cp1252Char_cases c b h with ⟨h1, rfl⟩ | ⟨p, hp, rfl, rfl⟩
+    · have e0 := byte_toNat c (by omega)
+      simp only [List.cons_append, List.nil_append, cp1252Step, e0]
+      rw [if_pos (by omega)]
+    · obtain ⟨hf, h1, h2, -⟩ := cp1252Table_rows p hp
+      simp only [List.cons_append, List.nil_append, cp1252Step]
+      rw [if_neg (by omega), hf]
+      rfl
+
+theorem nlOk_cp1252 : NlOk cp1252Char where
+  len := by
+    intro k hk c b bk hb hbk
+    have hk' : bk.length = 1 := by
+      rcases cp1252Char_cases k bk hbk with ⟨_, rfl⟩ | ⟨p, _, _, rfl⟩ <;> rfl
+    rcases cp1252Char_cases c b hb with ⟨_, rfl⟩ | ⟨p, _, _, rfl⟩ <;> rw [hk'] <;> exact Nat.le_refl _
+  last := by
+    intro k hk c b bk hb hbk hs
+    have hbk' : bk = [k.toUInt8] := by
+      rcases hk with rfl | rfl
+      · exact (Option.some.inj hbk).symm
+      · exact (Option.some.inj hbk).symm
+    have ek : k.toUInt8.toNat = k := byte_toNat k (by omega)
+    rw [hbk'] at hs
+    rcases cp1252Char_cases c b hb with ⟨h1, rfl⟩ | ⟨p, hp, rfl, rfl⟩
+    · have e0 := byte_toNat c (by omega)
+      have := congrArg UInt8.toNat (List.cons.inj (suffix_same_len _ [] _ hs rfl)).1
+      rw [ek, e0] at this
+      exact this.symm
+    · obtain ⟨-, h1, -, -⟩ := cp1252Table_rows p hp
+      have := congrArg UInt8.toNat (List.cons.inj (suffix_same_len _ [] _ hs rfl)).1
+      rw [ek] at this
+      omega
+
 /-! ## the environment -/
 
 section Env
@@ -572,6 +724,19 @@ theorem Codec.decode_bom (c : Codec) :
     rfl
   · exact ⟨utf16Step false, stepOk_utf16 false, fun _ => rfl⟩
   · exact ⟨utf16Step true, stepOk_utf16 true, fun _ => rfl⟩
+  · refine ⟨utf32Step false, stepOk_utf32 false, fun a => ?_⟩
+    show utf32Decode (bom32 ++ a) = _
+    unfold utf32Decode
+    rw [if_pos (List.isPrefixOf_iff_prefix.mpr (List.prefix_append _ _))]
+    rfl
+  · exact ⟨utf32Step false, stepOk_utf32 false, fun _ => rfl⟩
+  · exact ⟨utf32Step true, stepOk_utf32 true, fun _ => rfl⟩
+  · refine ⟨utf8Step, stepOk_utf8, fun a => ?_⟩
+    show utf8sigDecode (bom8 ++ a) = _
+    unfold utf8sigDecode
+    rw [if_pos (List.isPrefixOf_iff_prefix.mpr (List.prefix_append _ _))]
+    rfl
+  · exact ⟨cp1252Step, stepOk_cp1252, fun _ => rfl⟩
 
 /-- **decoding undoes encoding**, for every codec (no environment involved) -/
 theorem decode_encode (c : Codec) (t : Text) (b : Bytes) (h : c.encode t = some b) : c.decode b = some t := by
@@ -587,6 +752,11 @@ theorem Codec.nlOk (c : Codec) : NlOk c.encChar := by
   · exact nlOk_utf16 false
   · exact nlOk_utf16 false
   · exact nlOk_utf16 true
+  · exact nlOk_utf32 false
+  · exact nlOk_utf32 false
+  · exact nlOk_utf32 true
+  · exact nlOk_utf8
+  · exact nlOk_cp1252
 
 theorem Codec.enc_ne (c : Codec) (k : Nat) (b : Bytes) (h : c.encChar k = some b) : b ≠ [] := by
   obtain ⟨step, hs, -⟩ := c.decode_bom
@@ -603,6 +773,19 @@ theorem Codec.nl_not_bom (c : Codec) (k : Nat) (hk : k = 10 ∨ k = 13) (bk : By
     rw [hbk] at hs
     have := suffix_same_len (unit16 false k) [] (unit16 false 0xFEFF) hs (by rw [unit16_length, unit16_length])
     have := unit16_inj false k _ (by omega) (by omega) this
+    omega
+  case utf32 =>
+    have hbk := utf32Char_nl false k hk bk h
+    rw [hbk] at hs
+    have := suffix_same_len (unit32 false k) [] (unit32 false 0xFEFF) hs (by rw [unit32_length, unit32_length])
+    have := unit32_inj false k _ (by omega) (by omega) this
+    omega
+  case utf8sig =>
+    have hbk := utf8Char_nl k hk bk h
+    rw [hbk] at hs
+    have := congrArg UInt8.toNat (List.cons.inj (suffix_same_len [k.toUInt8] [0xEF, 0xBB] [0xBF] hs rfl)).1
+    rw [byte_toNat k (by omega)] at this
+    change k = 0xBF at this
     omega
   all_goals exact hne (List.suffix_nil.mp hs)
 
@@ -642,6 +825,19 @@ theorem Codec.strip_enc (c : Codec) (u : Text) (b : Bytes) (hu : encChars c.encC
       (hcases (utf16Char false) _ (by decide) (noBom_utf16 false) hu)
   · exact strip_single _ (unit16 true 0xFEFF) (by decide) _
       (hcases (utf16Char true) _ (by decide) (noBom_utf16 true) hu)
+  · show Codec.strip .utf32 (bom32 ++ b) = b
+    unfold Codec.strip
+    rw [show cfg.boms.lookup Codec.utf32.name = some [[0, 0, 254, 255], [255, 254, 0, 0]] by decide]
+    rfl
+  · exact strip_single _ (unit32 false 0xFEFF) (by decide) _
+      (hcases (utf32Char false) _ (by decide) (noBom_utf32 false) hu)
+  · exact strip_single _ (unit32 true 0xFEFF) (by decide) _
+      (hcases (utf32Char true) _ (by decide) (noBom_utf32 true) hu)
+  · show Codec.strip .utf8sig (bom8 ++ b) = b
+    unfold Codec.strip
+    rw [show cfg.boms.lookup Codec.utf8sig.name = some [[239, 187, 191]] by decide]
+    rfl
+  · exact strip_none _ (by decide) _
 
 /-- **every codec of the environment is faithful**, under every spelling -/
 theorem faithful (e : Name) (c : Codec) (he : lookup e = some c) : CodecFaithful (env dj lt lb) cfg e where
@@ -676,6 +872,10 @@ theorem nl_data (c : Codec) (dos : Bool) :
     | exact ⟨[13, 0, 10, 0], by decide, by decide, by decide, by decide, by decide, by decide⟩
     | exact ⟨[0, 10], by decide, by decide, by decide, by decide, by decide, by decide⟩
     | exact ⟨[0, 13, 0, 10], by decide, by decide, by decide, by decide, by decide, by decide⟩
+    | exact ⟨[10, 0, 0, 0], by decide, by decide, by decide, by decide, by decide, by decide⟩
+    | exact ⟨[13, 0, 0, 0, 10, 0, 0, 0], by decide, by decide, by decide, by decide, by decide, by decide⟩
+    | exact ⟨[0, 0, 0, 10], by decide, by decide, by decide, by decide, by decide, by decide⟩
+    | exact ⟨[0, 0, 0, 13, 0, 0, 0, 10], by decide, by decide, by decide, by decide, by decide, by decide⟩
 
 /-- **every codec of the environment has proper newlines** -/
 theorem newlines (e : Name) (c : Codec) (he : lookup e = some c) : CodecNewlines (env dj lt lb) cfg e where
@@ -719,7 +919,8 @@ theorem lookup_nameOk (e : Name) (c : Codec) (he : lookup e = some c) : RunRT.Na
   have hall : ∀ p ∈ aliases, RunRT.NameOk p.1 := by
     intro p hp
     simp only [aliases, List.mem_cons, List.not_mem_nil, or_false] at hp
-    rcases hp with rfl | rfl | rfl | rfl | rfl | rfl | rfl | rfl | rfl | rfl | rfl <;>
+    rcases hp with rfl | rfl | rfl | rfl | rfl | rfl | rfl | rfl | rfl | rfl | rfl | rfl | rfl | rfl | rfl | rfl |
+      rfl | rfl | rfl | rfl | rfl | rfl | rfl | rfl | rfl <;>
       exact ⟨by decide, by decide, by decide⟩
   exact hall _ hm
 
